@@ -6,13 +6,6 @@ type StreamSpec struct{}
 
 func runStream(sc *Scenario, res *Result, keepLog bool) {}
 func runFile(sc *Scenario, res *Result, keepLog bool)   {}
-func (r *Run) oracleC04()                                {}
-func (r *Run) oracleC06()                                {}
-func (r *Run) oracleC07()                                {}
-func (r *Run) oracleC09()                                {}
-func (r *Run) oracleC02()                                {}
-func (r *Run) lifecycleShutdown()                        {}
-func (r *Run) mutator(c *ClientSpec)                     {}
 
 func genStream(seed uint64, faulty bool) *Scenario { return nil }
 func genFile(seed uint64, faulty bool) *Scenario   { return nil }
